@@ -2,7 +2,8 @@
    implementation reported, either as the return value of verifyRAs (mode 0) or as the deltas of
    corerad_advertiser_inconsistencies_total + hook invocations + log lines of Advertiser.handle
    (mode 1). *)
-From CR Require Export Model.Verify Model.VerifySpec.
+From CR Require Export Model.Verify.
+From CR Require Export Model.VerifySpec.
 Local Open Scope Z_scope.
 
 (* rendering helper of the driver: a duration given as seconds + nanoseconds *)
